@@ -53,6 +53,14 @@ def special_inputs():
         out.append(("Display", '#[display("' + " ".join(f"{{_{j}}}" for j in range(n)) + f'")] struct D{n}<' +
                     ", ".join(f"X{j}" for j in range(n)) + ">(" + ", ".join(f"Box<X{j}>" for j in range(n)) + ");"))
         out.append(("Debug", f"struct B{n}<" + ", ".join(f"X{j}" for j in range(n)) + ">(" + ", ".join(f"Box<X{j}>" for j in range(n)) + ");"))
+    # several attributed fields / variants at once: per-attribute tables (keyed by field, by type, by name) are iterated
+    out.append(("Debug", 'struct Dn<A, B, C> { #[debug("{a:?}")] a: A, #[debug("{b}")] b: B, #[debug("{c:x}")] c: C, d: u8 }'))
+    out.append(("Debug", 'struct Dt<A, B, C>(#[debug("{_0:?}")] A, #[debug("{_1}")] B, #[debug("{_2:x}")] C);'))
+    out.append(("Debug", 'enum De<A, B, C> { V { #[debug("{a:?}")] a: A, #[debug("{b}")] b: B }, W(#[debug("{_0:o}")] C, #[debug("{_1:e}")] A) }'))
+    out.append(("Display", 'enum Dv<A, B, C> { #[display("{_0}")] P(A), #[display("{_0:?}")] Q(B), #[display("{x:x} {y:o}")] R { x: C, y: A } }'))
+    out.append(("AsRef", "struct Ar { #[as_ref(str, [u8])] a: String, #[as_ref] b: Vec<u8>, #[as_ref(forward)] c: Box<i32> }"))
+    out.append(("Into", "#[into(owned, ref(i64), ref_mut)] #[into(i128)] struct In(i32);"))
+    out.append(("From", "enum Fa { #[from(i8, i16)] A(i32), #[from(u8, u16)] B(u32), #[from] C(bool), D(char) }"))
     out.append(("From", "enum Fw<A, B> { P(Box<A>), Q(Box<B>), R(Box<A>, Box<B>) }"))
     out.append(("TryInto", "enum Tw { P(Box<i8>), Q(Box<u8>), R(Box<i8>, Box<u8>) }"))
     out.append(("TryInto", "enum E<T, U> { A(T), B(U), C(T, U), D(U, T), E0(u8), F(u16) }"))
